@@ -13,8 +13,9 @@ INTERNAL = ("MemoIsListing", "MemIsServed")
 NODE_PROPS = ["ListingIsTranslation", "ListedIffLookup", "InodesUniqueStable", "OpaqueXattr", "StateFileJSON", "StateDirHidden"]
 NODE_PROPS += [p + "A" for p in NODE_PROPS]
 
-RAWU7 = '{"a", ".wh.a", ".wh..wh..opq", ".prefetch.landmark", ".no.prefetch.landmark", "stargz.index.json", ".wh..wh.foo", "l"}'
-RAWU8 = RAWU7[:-1] + ', ".wh..prefetch.landmark"}'
+RAWU7 = '{"a", ".wh.a", ".wh..wh..opq", ".prefetch.landmark", ".no.prefetch.landmark", "stargz.index.json", ".wh..wh.foo", "l", "c13", "c00"}'
+RAWU8 = RAWU7[:-1] + ', ".wh..prefetch.landmark", "blk", "ff", "sl"}'
+RAWU_OLD = '{"a", ".wh.a", ".wh..wh..opq", ".prefetch.landmark", ".no.prefetch.landmark", "stargz.index.json", ".wh..wh.foo", "l", ".wh..prefetch.landmark"}'
 EXTRA3 = '{{"a", ".wh.a", ".wh..wh..opq"}, {".wh.a", ".wh..wh.foo", ".prefetch.landmark", "stargz.index.json"}, ' \
          '{"a", ".wh..wh.foo", ".no.prefetch.landmark"}}'
 
@@ -60,7 +61,14 @@ def validate_node(run, path, store, ov, what):
         bad = events[line - 1] if line else {}
         cfg = tr[1][0]
         where = "root" if cfg.get("root") else "subdir"
-        sig = "monitor:%s:%s:%s:%s" % (viol, node_detail(bad), where, store)
+        detail = node_detail(bad)
+        if viol == "MonListedIffLookup" and bad.get("ev") == "Readdir":
+            # the listing that exposed it: name the lookups of this trace that disagree with it
+            listed = {e["name"] for e in bad.get("list", [])}
+            off = sorted({e["n"] for e in tr[1][: idx + 1] if e.get("ev") == "Lookup" and e["n"] != ".stargz-snapshotter"
+                          and (e["errno"] == "OK") != (e["n"] in listed)})
+            detail = "Lookup:%s" % ",".join(off) if off else detail
+        sig = "monitor:%s:%s:%s:%s" % (viol, detail, where, store)
         run.violation(sig, "%s false on results of real nodes (%s store, %s, mode %s, directory content %s) at call %d: %s" %
                       (viol, store, where, cfg.get("mode"), json.dumps(cfg.get("src")), idx, json.dumps(bad)),
                       {"formula": viol, "store": store, "config": cfg, "call_index": idx, "trace": tr[1][: idx + 1]})
@@ -90,7 +98,7 @@ def check(run):
                        "replayed on real nodes of real eStargz layers over both metadata stores; non-trivial = trace has a Lookup and a Readdir; "
                        "Overlay: stacks of real served trees merged by TLC and compared with ApplyOCI; distinct by hash")
     run.assumptions += [
-        "names: universe of 8 (thorough 9) raw names per directory incl. one hard link l -> a, 13 (14) lookup names; kinds reg/dir/hard link; layers of depth two",
+        "names: universe of 10 (thorough 14) raw names per directory incl. one hard link l -> a, real char devices 1:3 and 0:0 (thorough: block device, fifo, symlink); 15 (19) lookup names; layers of depth two",
         "the go-fuse bridge is emulated: a successful Lookup adds the child to the Inode tree, FORGET removes it; no kernel mount",
         "overlayfs is the operator OverlayMerge of Overlay.tla (lookup/merge rules of lower directories), not the kernel",
         "a root stargz.index.json / root landmarks are eStargz artefacts, not content of the OCI layer (ApplyOCI leaves them out)",
@@ -99,7 +107,7 @@ def check(run):
     ]
     rawu = RAWU8 if thorough else RAWU7
     lookupu = ['a', '.wh.a', 'foo', '.wh.foo', '.wh..wh.foo', '.wh..opq', '.wh..wh..opq', '.prefetch.landmark', '.no.prefetch.landmark',
-               'stargz.index.json', 'zz', '.stargz-snapshotter', 'l'] + (['.wh..prefetch.landmark'] if thorough else [])
+               'stargz.index.json', 'zz', '.stargz-snapshotter', 'l', 'c13', 'c00'] + (['.wh..prefetch.landmark', 'blk', 'ff', 'sl'] if thorough else [])
     base = {"RawU": rawu, "LookupU": tla_set(lookupu)}
 
     # R: both drivers read their input from TLC output; one go test per metadata store runs both drivers.
@@ -150,8 +158,11 @@ def serialise(run):
 
 def design_level(run, thorough, base):
     """M: exhaustive TLC runs of the design; the negative controls (small models) run four at a time"""
-    run.tlc_mc("Node", "Node_mc.cfg", dict(base, MaxChildren="4" if thorough else "3", StatOnlyEmpty="FALSE" if thorough else "TRUE"),
-               workers=8 if thorough else 4, timeout=3000, name="Node_mc.cfg children<=%d" % (4 if thorough else 3))
+    run.tlc_mc("Node", "Node_mc.cfg", dict(base, MaxChildren="3", StatOnlyEmpty="FALSE" if thorough else "TRUE"),
+               workers=8 if thorough else 4, timeout=3000, name="Node_mc.cfg children<=3")
+    if thorough:
+        run.tlc_mc("Node", "Node_mc.cfg", dict(base, RawU=RAWU_OLD, MaxChildren="4", StatOnlyEmpty="FALSE"),
+                   workers=8, timeout=3000, name="Node_mc.cfg children<=4 (reg/link names)")
     oc2 = {"MaxLayers": "2", "LmChoices": '{"none", ".prefetch.landmark", ".no.prefetch.landmark"}', "PfChoices": "{TRUE, FALSE}",
            "SubLmChoices": "{TRUE, FALSE}"} if thorough else {"MaxLayers": "2"}
     run.tlc_mc("OverlayCheck", "OverlayCheck_mc.cfg", oc2, workers=8 if thorough else 4, timeout=3000, name="OverlayCheck_mc.cfg all pairs")
@@ -165,8 +176,8 @@ def design_level(run, thorough, base):
                      ({"MemoComplete": "FALSE"}, NODE_PROPS),
                      ({"PrefixedWhiteoutLookup": "FALSE"}, ["ListedIffLookup", "ListedIffLookupA"]),
                      ({"OpaqueByMode": "FALSE"}, ["OpaqueXattr", "OpaqueXattrA"]),
-                     ({"WhiteoutAttr": "FALSE"}, ["ListedIffLookup", "ListedIffLookupA", "InodesUniqueStable", "InodesUniqueStableA"]),
-                     ({"MemWhiteoutAttr": "FALSE"}, ["ListedIffLookup", "ListedIffLookupA"]),
+                     ({"WhiteoutAttr": "FALSE"}, ["ListedIffLookup", "ListedIffLookupA", "InodesUniqueStable", "InodesUniqueStableA", "ListingIsTranslation", "ListingIsTranslationA"]),
+                     ({"MemWhiteoutAttr": "FALSE"}, ["ListedIffLookup", "ListedIffLookupA", "ListingIsTranslation", "ListingIsTranslationA"]),
                      ({"HardLinkSharesInode": "FALSE"}, ["InodesUniqueStable", "InodesUniqueStableA"]),
                      ({"WriterDropsToc": "FALSE"}, ["ListingIsTranslation"])):
         ctl.append(lambda ovr=ovr, exp=exp: run.tlc_negctl("Node", "Node_mc.cfg", dict(small, **ovr), exp, drop=INTERNAL, workers=2))
@@ -210,9 +221,10 @@ def prepare_nodes(run, thorough, base):
     # out of Readdir / Lookup / Forget of the served names on two small directories (call orders, not just edges)
     seqs = all_sequences(inits, edges, lambda i: i["isRoot"] and not i["src"],
                          lambda l: l["act"] in ("StatLookup", "StatGetattr", "Progress", "Report", "StatRead"), 5 if thorough else 4)
-    for content in (["a", ".wh.a"], [".wh.a", ".wh..wh.foo"], ["a", "l"]):
+    for content, names in ((["a", ".wh.a"], ("a", "zz")), ([".wh.a", ".wh..wh.foo"], ("a", ".wh.foo", "zz")),
+                           (["a", "l"], ("a", "l")), (["c13", "c00"], ("c13", "c00"))):
         seqs += all_sequences(inits, edges, lambda i: not i["isRoot"] and sorted(i["src"]) == sorted(content),
-                              lambda l: l["act"] in ("Readdir", "Forget") or (l["act"] == "Lookup" and l["n"] in ("a", ".wh.foo", "zz", "l")), 3)
+                              lambda l: l["act"] in ("Readdir", "Forget") or (l["act"] == "Lookup" and l["n"] in names), 3)
     walks += seqs
     st["sequences"] = len(seqs)
     log("[walks] node: %s" % st)
